@@ -8,6 +8,15 @@ import (
 )
 
 func init() {
+	vk.Register("debug.fq", func(p vbase.Params, r *vbase.Result) {
+		c := RunForgedQCToNextLeader(int(p.Seed), "eddsa", vbase.NewRng(p.Seed, "dbg"), r, func(m *Monitors) { m.Vote = true })
+		for _, v := range c.Mon.Viol {
+			fmt.Println("VIOL", v.Sig, v.Msg)
+		}
+		for _, t := range c.Trace {
+			fmt.Printf("%+v\n", t)
+		}
+	})
 	vk.Register("debug.sl", func(p vbase.Params, r *vbase.Result) {
 		c := RunStaleLeader(int(p.Seed)%4, Rulesets[int(p.Seed)%3], "eddsa", vbase.NewRng(p.Seed, "dbg"), r, func(m *Monitors) { m.Vote = true })
 		for _, v := range c.Mon.Viol {
@@ -172,6 +181,13 @@ func simCampaign(prop string, enable func(*Monitors), clients bool) vk.Campaign 
 						if c := RunStaleLeader(variant, rs, "eddsa", vbase.NewRng(p.Seed, "stale-leader", rs, variant), r, enable); c != nil {
 							finish(c, c.Cfg.String()+" "+c.Cfg.Label, -2200-4*k-variant, "directed")
 						}
+					}
+				}
+			}
+			for variant := 0; variant < 6; variant++ {
+				if p.Mine(580 + variant) {
+					if c := RunForgedQCToNextLeader(variant, []string{"eddsa", "eddsa", "ecdsa"}[variant%3], vbase.NewRng(p.Seed, "forged-qc-to-next-leader", variant), r, enable); c != nil {
+						finish(c, c.Cfg.String()+" "+c.Cfg.Label, -2300-variant, "directed")
 					}
 				}
 			}
